@@ -1504,7 +1504,8 @@ local notation "WI" => WInv strict c d k R T
 
 theorem runInner_innerOK (mode : Mode) {c' : Nat} (hne : c' ≠ c) : InnerOK strict c d k R T (runInner mode c') := by
   intro sig raw n hf
-  unfold runInner
+  refine runInner_cases (P := fun m => Pres WI m) mode c' sig raw
+    (fun _ => runScriptCmd_wi (special_sound _) mode c' sig raw false) (fun _ => ?_)
   refine runWith_wi _ (special_sound _) mode c' sig raw false (sigs_sigOK sig (find_mem hf)) (.inr ?_)
   intro args cis hargs
   exact special_wi _ mode c' (fun _ => stub_innerOK) sig.name args cis (.inl hne) hargs
@@ -2197,16 +2198,6 @@ theorem runWith_len (special : Mode → Nat → String → List Arg → List CI 
     simp only [hreg]
     lpres
 
-/-- the nested runner of EXEC (level 0) -/
-theorem runInner_len (mode : Mode) (c : Nat) : InnerLen N (runInner mode c) := by
-  intro sig raw
-  unfold runInner
-  apply runWith_len
-  intro args cis
-  apply special_len
-  intro sig raw
-  lpres
-
 /-! ## Scripts (EVAL / EVALSHA / SCRIPT) -/
 
 theorem nextPick_len : Pres (LenIs N) nextPick := by
@@ -2261,6 +2252,15 @@ theorem runScriptCmd_len (mode : Mode) (c : Nat) (sig : Sig) (raw : List Bytes) 
     Pres (LenIs N) (runScriptCmd mode c sig raw fromScript) := by
   have hbody := scriptBody_len (N := N) _ special_stub_len mode c
   unfold runScriptCmd; lpres
+
+/-- the nested runner of EXEC (level 0) -/
+theorem runInner_len (mode : Mode) (c : Nat) : InnerLen N (runInner mode c) := by
+  intro sig raw
+  refine runInner_cases (P := fun m => Pres (LenIs N) m) mode c sig raw
+    (fun _ => runScriptCmd_len mode c sig raw false) (fun _ => ?_)
+  apply runWith_len
+  intro args cis
+  exact special_stub_len _ _ _ _ _
 
 /-- `_run_command` for a command issued by a client -/
 theorem runCommand_len (mode : Mode) (c : Nat) (sig : Sig) (raw : List Bytes) (fromScript : Bool) :
